@@ -394,7 +394,10 @@ def _gen_one(env, cat, f, name, b, depth, narrow):
             b = Bounds(b.rep, b.mapn, b.strlen, b.depth, True, b.enum_numbers, b.received, b.wide_first_only)
         sub = gen_value(env, cat, f.msg, name + ".", b, depth + 1)
         if not [k for k in sub if not k.startswith("__")] and b.received and f.label not in ("repeated", "map"):
-            if env.choose(name + "#received", 2):
+            if not cat.shapes[f.msg].fields:
+                # a type without fields: presence is all a value of it carries, and assigning one always marks it present
+                sub["__received__"] = True
+            elif env.choose(name + "#received", 2):
                 sub["__received__"] = True
         return sub
     return gen_scalar(env, name, f.kind, b, narrow)
